@@ -303,9 +303,10 @@ HandleAck(m, t, ns, id, args) ==
         ELSE m      \* unknown callback: ignored
 
 (* server.py _handle_eio_message (638-666): the binary reassembly buffer   *)
-RxBinHeader(m, t, ty, ns, id, ev, n) ==
+RxBinHeader(m, t, ty, ns, id, ev, n, bad) ==
     [m EXCEPT !.s.binbuf = Put(@, t, [ty |-> ty, ns |-> ns, id |-> id, ev |-> ev,
-                                       owed |-> n, atts |-> <<>>])]
+                                       owed |-> n, atts |-> <<>>,
+                                       bad |-> bad])]   \* a placeholder points outside the attachments
 
 RxAttachment(m, t, b) ==
     LET p == m.s.binbuf[t]
@@ -313,6 +314,8 @@ RxAttachment(m, t, b) ==
         ELSE LET atts == Append(p.atts, b)
              IN  IF Len(atts) < p.owed
                  THEN [m EXCEPT !.s.binbuf = Put(@, t, [p EXCEPT !.atts = atts])]
+                 \* the packet cannot be put together: nothing is dispatched (packet.py 131-139)
+                 ELSE IF p.bad THEN Raise([m EXCEPT !.s.binbuf = Put(@, t, [p EXCEPT !.atts = atts])], "IndexError")
                  ELSE LET m1 == [m EXCEPT !.s.binbuf = Del(@, t)]
                       IN  IF p.ty = "BINARY_EVENT"
                           THEN HandleEvent(m1, t, p.ns, p.id, p.ev, atts)
@@ -469,9 +472,9 @@ Step(m, a) ==
       [] a.act = "RxEvent"      -> HandleEvent(m, a.t, a.ns, a.id, a.ev, a.args)
       [] a.act = "RxAck"        -> HandleAck(m, a.t, a.ns, a.id, a.args)
       [] a.act = "RxFrame"      ->
-            IF a.kind = "hdr"
+            IF a.kind \in {"hdr", "hdrbad"}
             THEN IF Has(m.s.binbuf, a.t) THEN RxAttachment(m, a.t, "?text")
-                 ELSE RxBinHeader(m, a.t, a.ty, a.ns, a.id, a.ev, a.n)
+                 ELSE RxBinHeader(m, a.t, a.ty, a.ns, a.id, a.ev, a.n, a.kind = "hdrbad")
             ELSE IF Has(m.s.binbuf, a.t) THEN RxAttachment(m, a.t, a.b)
                  ELSE Raise(m, "ValueError")   \* bytes where a text packet is expected
       \* a malformed / hostile frame: `class` is what the reference reading of the
@@ -513,7 +516,7 @@ Enabled(s, a) ==
          [] a.act = "RxConnect" -> s.eio[a.t] = "open" /\ s.nextSid <= MaxSid /\ ~Has(s.binbuf, a.t)
          [] a.act \in {"RxDisconnect", "RxEvent", "RxAck", "RxRaw"} -> s.eio[a.t] = "open" /\ ~Has(s.binbuf, a.t)
          [] a.act = "RxFrame" -> /\ s.eio[a.t] = "open"
-                                 /\ (a.kind = "hdr" => ~Has(s.binbuf, a.t))
+                                 /\ (a.kind \in {"hdr", "hdrbad"} => ~Has(s.binbuf, a.t))
                                  \* budget: attachments buffered for one packet
                                  /\ (a.kind = "att" /\ Has(s.binbuf, a.t) => Len(s.binbuf[a.t].atts) < 3)
          [] a.act = "Emit" -> a.cb # "" => \A x \in DOMAIN s.cb : s.cb[x].next <= MaxAck
@@ -590,7 +593,7 @@ GhostStep(s, g, a, o) ==
       [] a.act = "RxFrame" /\ a.kind = "att" /\ Has(s.binbuf, a.t) ->
             \* a binary ACK completes: same rule, with the buffered header's namespace and id
             LET p == s.binbuf[a.t]
-            IN  IF p.ty = "BINARY_ACK" /\ Len(p.atts) + 1 = p.owed
+            IN  IF p.ty = "BINARY_ACK" /\ Len(p.atts) + 1 = p.owed /\ ~p.bad
                 THEN [g EXCEPT !.issued = {x \in @ : ~(x.id = p.id /\ \E c \in g.conn :
                                                   c.t = a.t /\ c.ns = p.ns /\ c.sid = x.sid)}]
                 ELSE g
@@ -752,7 +755,7 @@ C05_BinaryEventDispatch ==     \* the attachment that completes a binary event
         LET o == Do(st, a)
             p == st.binbuf[a.t]
             cs == {c \in gh.conn : c.t = a.t /\ c.ns = p.ns}
-        IN  (gh.dev = {} /\ p.ty = "BINARY_EVENT" /\ Len(p.atts) + 1 = p.owed /\ p.ns \in NsH
+        IN  (gh.dev = {} /\ p.ty = "BINARY_EVENT" /\ Len(p.atts) + 1 = p.owed /\ ~p.bad /\ p.ns \in NsH
                 /\ EvResult(p.ev).k \notin {"unh", "raise"} /\ cs # {}) =>
             /\ o.hc = <<HCall(p.ns, p.ev, (CHOOSE c \in cs : TRUE).sid, Append(p.atts, a.b))>>
             /\ ~Has(o.s.binbuf, a.t)
@@ -875,4 +878,6 @@ C12_Isolation ==
             /\ Prune(BystanderView(o.s, off)) = Prune(BystanderView(st, off))
             /\ (o.cbs # <<>> => \E x \in mine : Has(st.cb, x)) \* only the offender's own callbacks complete
             /\ (a.act = "RxRaw" /\ a.class = "contained" => o.hc = <<>> /\ o.pk = <<>> /\ o.s = st)
+            \* ... nor does a binary packet whose placeholders cannot be resolved
+            /\ (a.act = "RxFrame" /\ Has(st.binbuf, a.t) /\ st.binbuf[a.t].bad => o.hc = <<>> /\ o.pk = <<>> /\ o.cbs = <<>>)
 ====
